@@ -81,3 +81,18 @@ package light
 //@   callpre bitswap.NewEmptySampleBlock: $arg1.Row == result.Available[rangeindex].Row && $arg1.Col == result.Available[rangeindex].Col
 //@   loop 1: invariant -1 <= rangeindex && rangeindex < len(result.Available) && !$Deleted
 //@   loop 1: backedge rangeindex == head(rangeindex) + 1
+
+// ---------------------------------------------------------------------------------------------
+// C03, persistence across restarts: sampling results sit in a write buffer (autobatch) until they are
+// flushed; Close is the only place that flushes on shutdown. Every call of Close hands the buffer to
+// the datastore - whatever the state of the stop context, under the datastore lock - and reports the
+// flush's own outcome.
+//@ extern (*github.com/ipfs/go-datastore/autobatch.Datastore).Flush
+//@   effect $FlushTried := true
+//@   effect $FlushErr := err != nil
+//@ func (*ShareAvailability).Close
+//@   property C03
+//@   requires la != nil && !$FlushTried
+//@   havoc $FlushTried $FlushErr
+//@   ensures $FlushTried
+//@   ensures err != nil <==> $FlushErr
